@@ -70,6 +70,7 @@ def run(tier):
     flagged_runs = 0
     errors = []
     times = {}
+    inv_states = [0, 0]   # model states on which the proved invariants were evaluated, ops with a failing state
     for label, impl, insts, enum in sets:
         real, drv, errs, dts = L.run_batch(insts, impl, tag='c01' + label, enum=enum)
         byid0 = {i['id']: i for i in insts}
@@ -100,6 +101,9 @@ def run(tier):
                     flagged_runs += 1
                 if d and r['op'] in d['d']:
                     det_stats[d['d'][r['op']]] = det_stats.get(d['d'][r['op']], 0) + 1
+            for iv in ((d or {}).get('i') or {}).values():
+                inv_states[0] += iv['states']
+                inv_states[1] += 0 if iv['ok'] else 1
             v = L.eval_c01(ins, rs, d, impl)
             known_here = False
             for x in v:
@@ -161,6 +165,11 @@ def run(tier):
                     'samples': samples, 'traces_validated_against_impl': sum(corr.values()),
                     'correspondence': corr, 'input_histogram': hist,
                     'known_finding_hits': known_hits,
+                    'model_invariants': {'states_evaluated': inv_states[0], 'ops_with_a_failing_state': inv_states[1],
+                                         'what': 'VpscInvB.all_invb (book, act_inv, forest, trichotomy, block statistics A2>0 / sums; the statements proved in '
+                                                 'VpscForest.v, VpscTrichotomy.v, VpscStats.v) evaluated by the extracted model on every state it visits: after '
+                                                 'moveBlocks, after each block of splitBlocks, after each iteration of the satisfy loop, after each op; a failure is '
+                                                 'reported as a correspondence difference'},
                     'oracle': {'violations': len(oracle_viol) - known_hits, 'runs_with_flagged_constraints': flagged_runs, 'detector_answers': det_stats},
                     'set_times_s(harness,driver)': times, 'machinery_errors': errors[:5]})
     return res.finish()
